@@ -30,9 +30,9 @@ RULE = ("case kinds: 'table' (InterpND.interpolate(compute_derivative=True) and 
         "sign neg/end0/straddle/start0/pos); tables rough cosine / integer ramp / constant; query points strictly inside "
         "cells (5%..95% of the cell in every coordinate); perturbation tables/vectors drawn.  Non-trivial = at least one "
         "derivative was judged and (dimension >= 2 or some axis non-uniform).  Distinct = distinct canonical JSON.  "
-        "Excluded by construction (findings of C15 that would only repeat here): 1D-akima on a 4-point grid (F18), "
-        "akima delta_x > 0 on 3-D tables (F19), single-point calls after a vectorised call on a fixed-dimension table "
-        "(F16); boundary queries are not generated at all (the derivative is one-sided there).")
+        "(Cases that used to be excluded because of the C15 findings F18 - akima on a 4-point grid - and F19 - akima "
+        "delta_x > 0 on 3-D tables - are judged since those defects were repaired.)  Boundary queries are not generated at "
+        "all (the derivative is one-sided there).")
 ASSUMPTIONS = [
     "inside a cell every interpolant is differentiable in x; points are kept 5% of the cell away from the cell faces",
     "complex step: the imaginary part of interpolate(x + i*h*e_k)/h is the exact derivative of the returned value "
@@ -248,7 +248,7 @@ def check_table(case, res, cls):
         tolk = [TOL_K * EPS * A * F / h for h in hmin]
         try:
             obj = InterpND(method=name, points=tuple(np.array(g) for g in grids), values=table.copy(),
-                           extrapolate=bool(case.get('extrapolate', False)), **({} if name == '1D-akima' else opts))
+                           extrapolate=bool(case.get('extrapolate', False)), **opts)
         except Exception as e:
             res.fail(_exc_sig(e, 'build'), f"{name}: {type(e).__name__}: {e}")
             continue
@@ -654,10 +654,6 @@ def check(case):
                 return _discard(res, cls, 'invalid-grid')
         if not _interior(grids, case['points']):
             return _discard(res, cls, 'point-not-cell-interior')
-        if method == 'akima' and dim == 1 and len(grids[0]) == 4 and kind == 'table':
-            return _discard(res, cls, 'excluded-known-F18')
-        if method == 'akima' and dim >= 3 and case.get('delta_x'):
-            return _discard(res, cls, 'excluded-known-F19')
         Amax = base.amplification(method, grids, variant=base.FIXED.get((method, dim)))
         if TOL_K * EPS * Amax > base.MAX_REL_TOL:
             return _discard(res, cls, 'ill-conditioned-grid')
@@ -767,8 +763,6 @@ def strategy():
             method = draw(st.sampled_from(base.BASE_METHODS[:5] * 3 + base.BASE_METHODS[5:]))
         dim = draw(st.sampled_from([1, 2, 2, 3]))
         nmin = base.MIN_POINTS[method]
-        if method == 'akima' and dim == 1 and kind == 'table':
-            nmin = 5                                   # F18 of C15 excluded by construction
         nmax = {1: 8, 2: 6, 3: 5}[dim]
         if method.startswith('scipy') and dim == 3:
             nmax = 4
@@ -779,8 +773,8 @@ def strategy():
         c = {'kind': kind, 'method': method, 'grids': grids, 'rough': draw(rough(dim)), 'points': pts,
              'signs': [a[1] for a in axes], 'spacings': [a[2] for a in axes],
              'extrapolate': draw(st.booleans())}
-        if method == 'akima' and dim < 3:
-            c['delta_x'] = draw(st.sampled_from([0.0, 0.0, 0.1]))
+        if method == 'akima':
+            c['delta_x'] = draw(st.sampled_from([0.0, 0.0, 0.1, 0.1, 0.5]))
         if kind == 'train':
             d = draw(rough(dim))
             if d['kind'] == 'const' and d['c0'] == 0.0:
